@@ -328,7 +328,7 @@ PLANS = {
     ),
     # not a listed property: growth of the specification beyond the list (DESIGN section 10); run with ./check extras
     "_extras": dict(
-        sany=["DltMisc.tla", "NvDecode.tla", "mc/MCDecode.tla", "trace/TraceCodes.tla", "trace/TraceStats.tla", "trace/TraceDecode.tla", "trace/TraceReader.tla", "trace/TraceBuild.tla"],
+        sany=["DltMisc.tla", "NvDecode.tla", "mc/MCDecode.tla", "mc/MCJunk.tla", "mc/MCSession.tla", "trace/TraceCodes.tla", "trace/TraceStats.tla", "trace/TraceDecode.tla", "trace/TraceReader.tla", "trace/TraceBuild.tla"],
         steps=[
             rec("codes", "misc", "TraceCodes", 300, 5000, 1, 2),
             rec("stats", "pipeline", "TraceStats", 600, 20000, 2, 8),
@@ -337,6 +337,10 @@ PLANS = {
             rec("reader", "async", "TraceReader", 500, 10000, 1, 4, salt=11),
             rec("build", "stampnow", "TraceBuild", 20, 40, 1, 1),
             mc("decode", "MCDecode", "MCDecode.cfg", "MCDecode.cfg", replay=("fibex", "decode")),
+            # the verdicts of the skipper, the storage-header helpers and of sessions with a filter against the reference machine: no listed
+            # property fixes them in full (C02 states the parser's verdict), so they are conformance beyond the list
+            mc("junk", "MCJunk", "MCJunk_quick.cfg", "MCJunk_thorough.cfg", replay=("slice", "verdict", "verdict,search")),
+            mc("session", "MCSession", "MCSession_quick.cfg", "MCSession_thorough.cfg", replay=("slice", "session")),
             dict(kind="custom", fn=tlaps_timestamps_always),
         ],
         rule="service ids / control types: all 256 bytes; type widths, argument counts: seeded random; pipeline: seeded random well-formed streams x random filters",
